@@ -440,13 +440,9 @@ impl CommandBuilder<'_> {
         if let Some(replace_str) = &self.options.replace {
             // Replace all occurrences in initial args with the extra arg,
             // Thanks to `MaxArgsCommandSizeLimiter`, we only process a single extra arg here.
-            let replacement = self.extra_args[0].to_string_lossy();
             let initial_args: Vec<OsString> = initial_args
                 .iter()
-                .map(|arg| {
-                    let arg_str = arg.to_string_lossy();
-                    OsString::from(arg_str.replace(replace_str, &replacement))
-                })
+                .map(|arg| replace_in_os_str(arg, replace_str, &self.extra_args[0]))
                 .collect();
 
             command
@@ -525,6 +521,41 @@ impl CommandBuilder<'_> {
             }
         }
     }
+}
+
+/// `arg` with every occurrence of `pattern` replaced by `replacement`, left to right, the
+/// inserted text not rescanned - on the bytes, so that an input line that is not valid UTF-8
+/// (a Latin-1 file name, say) reaches the command unchanged.
+#[cfg(unix)]
+fn replace_in_os_str(arg: &OsStr, pattern: &str, replacement: &OsStr) -> OsString {
+    use std::os::unix::ffi::{OsStrExt, OsStringExt};
+    let (arg, pattern, replacement) = (arg.as_bytes(), pattern.as_bytes(), replacement.as_bytes());
+    if pattern.is_empty() {
+        // like str::replace: the replacement goes before every character and at the end
+        return OsString::from(
+            String::from_utf8_lossy(arg).replace("", &String::from_utf8_lossy(replacement)),
+        );
+    }
+    let mut out: Vec<u8> = Vec::with_capacity(arg.len());
+    let mut i = 0;
+    while i < arg.len() {
+        if arg[i..].starts_with(pattern) {
+            out.extend_from_slice(replacement);
+            i += pattern.len();
+        } else {
+            out.push(arg[i]);
+            i += 1;
+        }
+    }
+    OsString::from_vec(out)
+}
+
+#[cfg(not(unix))]
+fn replace_in_os_str(arg: &OsStr, pattern: &str, replacement: &OsStr) -> OsString {
+    OsString::from(
+        arg.to_string_lossy()
+            .replace(pattern, &replacement.to_string_lossy()),
+    )
 }
 
 /// Input bytes become an argument unchanged (they need not be valid UTF-8).
